@@ -243,6 +243,8 @@ def build(case, dask):
             elif kind in ("accumulate", "accumulate_rs"):
                 start = no_default if k.get("start") is None else uncanon(k["start"])
                 f, a = fun(F2 if kind == "accumulate" else FRS, f2 if kind == "accumulate" else frs)
+                if k.get("ws"):
+                    a = dict(a, with_state=True)          # the node emits (state, result) pairs
                 up = up.accumulate(f, start=start, returns_state=(kind == "accumulate_rs"), **a)
             elif kind == "zip_map":
                 f, a = fun(F1, f1)
@@ -470,10 +472,14 @@ def gen_seg(rng, n):
             k["f"] = rng.choice(sorted(F2))
             k["start"] = rng.choice([None, None, 0, 5, {"t": [1, 2]}])
             tup = tup and k["f"] == "last" and (k["start"] is None or isinstance(k["start"], dict))
+            if rng.random() < 0.25:
+                k["ws"], tup = True, True
         elif kind == "accumulate_rs":
             k["f"] = rng.choice(sorted(FRS))
             k["start"] = rng.choice([None, 0, 3])
             tup = (k["f"] == "rs_prev") and (tup or k["start"] is not None)
+            if rng.random() < 0.25:
+                k["ws"], tup = True, True
         elif kind in ("zip_map", "union_map"):
             k["f"] = rng.choice(K_F1)
             tup = True if kind == "zip_map" else (tup and k["f"] in ("inc", "dbl", "neg", "pair"))
@@ -574,6 +580,11 @@ CORPUS = [
     {"mode": "concurrent", "seg": [{"k": "sliding_window", "n": 3, "partial": True}, {"k": "union_map", "f": "neg"}],
      "xs": [9, 1, 5, 1, 0, 3, 0, 7], "salt": 12, "delays": [1, 1, 5]},
     {"mode": "concurrent", "seg": [{"k": "map", "f": "inc"}], "xs": [1, 2, 3, 4, 5, 6], "salt": 3, "delays": [6, 0, 0, 3]},
+    # accumulate(with_state=True): (state, result) pairs from the very first element on, with and without an explicit start
+    {"mode": "await", "seg": [{"k": "accumulate", "f": "add", "start": None, "ws": True}], "xs": [3, 1, 4, 1], "salt": 0, "delays": [1, 0]},
+    {"mode": "buffer", "style": "closure", "seg": [{"k": "accumulate_rs", "f": "rs_sum", "start": None, "ws": True}, {"k": "map", "f": "first"},
+                                                   {"k": "buffer", "n": 2}], "xs": [2, 7, 1], "salt": 1, "delays": [0, 2]},
+    {"mode": "await", "seg": [{"k": "accumulate", "f": "mix", "start": 5, "ws": True}, {"k": "starmap", "f": "add*"}], "xs": [1, 2, 3], "salt": 2, "delays": [0]},
     # named nodes: stream_name= is an option of the node, not an argument of the user function
     {"mode": "await", "named": True, "seg": [{"k": "map", "f": "pair"}, {"k": "starmap", "f": "add*"}, {"k": "accumulate", "f": "add", "start": 0}],
      "xs": [1, 2, 3], "salt": 0, "delays": [1, 0]},
@@ -615,7 +626,7 @@ FAULT_CORPUS = [
 def model_lines(case):
     if is_fault(case):
         return fault_model_lines(case)
-    if any(k["k"] in ("zip_map2", "union_starmap2", "regather") for k in case["seg"]):
+    if any(k["k"] in ("zip_map2", "union_starmap2", "regather") or k.get("ws") for k in case["seg"]):
         return []           # two-branch fan-out kinds: model-free oracle only (Model/Dask.lean has one side branch through one map)
     late = case.get("late", 0)
     return [{"op": "reset", "seg": case["seg"]},
